@@ -13,11 +13,11 @@ def check(repo, rep, tier):
                        'and every identity/time/environment-dependent value reaching the return of the pipeline function; the '
                        'compiler modules write no module- or class-level location; every pipeline object and counter is created '
                        'per call. Determinism of CPython and ANTLR themselves is trusted.')
-    re_.rule_no_hash_order(cm, rep, 'C18.N1')
-    re_.rule_no_ambient_input(cm, rep, 'C18.N2')
-    rs.rule_no_module_state(em, rep, 'C18.N3', modules=('compiler', 'yp_generator', 'yp_prolog_visitor', 'errors'))
-    rs.rule_no_shared_class_attrs(em, rep, 'C18.N3b')
-    re_.rule_fresh_pipeline(cm, rep, 'C18.N4')
-    rs.rule_context_not_written(em, rep, 'C18.N3c')
+    rep.run(re_.rule_no_hash_order, cm, rep, 'C18.N1')
+    rep.run(re_.rule_no_ambient_input, cm, rep, 'C18.N2')
+    rep.run(rs.rule_no_module_state, em, rep, 'C18.N3', modules=('compiler', 'yp_generator', 'yp_prolog_visitor', 'errors'))
+    rep.run(rs.rule_no_shared_class_attrs, em, rep, 'C18.N3b')
+    rep.run(re_.rule_fresh_pipeline, cm, rep, 'C18.N4')
+    rep.run(rs.rule_context_not_written, em, rep, 'C18.N3c')
     from .. import rules_extra as rx
-    rx.rule_stages_per_call(cm, em, rep, 'C18.N5')
+    rep.run(rx.rule_stages_per_call, cm, em, rep, 'C18.N5')
